@@ -125,6 +125,9 @@ class HTTPReader:
             if cl_string:
                 try:
                     content_length = int(cl_string)
+                    if content_length < 0:
+                        # read(-1) would read until the peer closes the connection
+                        raise ValueError(f'invalid content-length {cl_string!r}')
                     http_body = http_message.rfile.read(content_length)
                 except TypeError:
                     http_body = http_message.rfile.read()
